@@ -5,9 +5,71 @@ package main
 
 import (
 	"bufio"
+	"encoding/json"
 	"fmt"
 	"os"
+	"path/filepath"
+	"time"
 )
+
+// jobLoop runs one job per input line under a wall-clock watchdog. A job that does not finish
+// (a pass looping on aliased schemas, say) cannot be killed inside the process: its line becomes
+// {"status":"Timeout"}, every remaining job is answered {"status":"Skipped"} and the process
+// exits; the driver re-submits the skipped ones to a fresh process.
+func jobLoop(in *bufio.Scanner, out *bufio.Writer, handle func(line []byte) (any, error)) error {
+	timedOut := false
+	for in.Scan() {
+		line := append([]byte(nil), in.Bytes()...)
+		if timedOut {
+			out.WriteString("{\"status\":\"Skipped\",\"skipped\":true}\n")
+			continue
+		}
+		var hdr struct {
+			Config   string `json:"config"`
+			TimeoutS int    `json:"timeout_s"`
+		}
+		if err := json.Unmarshal(line, &hdr); err != nil {
+			return err
+		}
+		if !filepath.IsAbs(hdr.Config) {
+			return fmt.Errorf("config must be absolute: %s", hdr.Config)
+		}
+		// relative paths in the configuration are relative to the case directory
+		if err := os.Chdir(filepath.Dir(hdr.Config)); err != nil {
+			return err
+		}
+		if hdr.TimeoutS <= 0 {
+			hdr.TimeoutS = 60
+		}
+		type answer struct {
+			v   any
+			err error
+		}
+		ch := make(chan answer, 1)
+		go func() {
+			v, err := handle(line)
+			ch <- answer{v, err}
+		}()
+		select {
+		case a := <-ch:
+			if a.err != nil {
+				return a.err
+			}
+			b, _ := json.Marshal(a.v)
+			out.Write(b)
+			out.WriteByte('\n')
+		case <-time.After(time.Duration(hdr.TimeoutS) * time.Second):
+			timedOut = true
+			out.WriteString("{\"status\":\"Timeout\",\"timeout\":true}\n")
+		}
+		out.Flush()
+	}
+	out.Flush()
+	if timedOut {
+		os.Exit(0)
+	}
+	return nil
+}
 
 var commands = map[string]func(in *bufio.Scanner, out *bufio.Writer) error{}
 
